@@ -98,6 +98,9 @@ type SimNode struct {
 	task            *task
 	cur             *logCursor
 	preVlog         int64
+	vlogAtOpen      int64
+	wipeExpected    bool
+	wiped           bool
 	crashImage      string
 	lostTxs         [][]byte
 	knownAtCrash    map[uint32]int
@@ -195,6 +198,8 @@ type Cluster struct {
 	byzHandler      func(s *Step)
 	byzGen          func(g *genState) *Step
 	observer        *SimNode
+	recordWrites    bool
+	recorder        *recStore
 	curTask         *task
 	taskHarnessErr  *harnessError
 	instSeq         int
@@ -374,8 +379,13 @@ func (c *Cluster) startNode(n *SimNode, bootstrap bool) error {
 		}
 		store = bs
 		c.byPath[n.dbPath] = n
+		_, n.vlogAtOpen = vlogSize(n.dbPath)
 	} else {
 		store = hg.NewInmemStore(n.cacheSize)
+	}
+	if c.recordWrites && n.idx == 0 && c.recorder == nil {
+		c.recorder = &recStore{Store: store}
+		store = c.recorder
 	}
 	n.store = store
 
